@@ -19,6 +19,7 @@ fn main() {
         Some("c09gen") => c09::gen_main(&args[2..]),
         Some("c01gen") => c01::gen_main(&args[2..]),
         Some("c01core") => c01core::gen_main(&args[2..]),
+        Some("c01mod") => c01core::gen_mod_main(&args[2..]),
         Some("frame") => frame::main(&args[2..]),
         Some("deep") => deep::main(&args[2..]),
         Some("c18gen") => c18x::gen_main(&args[2..]),
